@@ -22,7 +22,13 @@ def _op_sym(model):
 
 def _sub(name, ret, abi, nargs, byref=()):
     s = Sym(name)
-    s.attrs.update({"return_type": ret, "has_abi_output": abi, "by_ref_args": set(byref), "output_kwarg": ({"output": "spec"} if abi else {}), "id": 1})
+    # the other descriptions of the routine a SubroutineDefinition carries: the Python signature includes the keyword-only
+    # `output` parameter of an ABI-returning routine, the stack arguments do not
+    params = {f"a{i}": "param" for i in range(nargs)}
+    if abi:
+        params["output"] = "kwonly-param"
+    s.attrs.update({"return_type": ret, "has_abi_output": abi, "by_ref_args": set(byref), "output_kwarg": ({"output": "spec"} if abi else {}), "id": 1, "implementation_params": params,
+                    "expected_arg_types": ["Expr"] * nargs, "abi_args": {}})
     s.methods.update({"argument_count": lambda: nargs, "name": lambda: name, "arguments": lambda: [f"a{i}" for i in range(nargs)]})
     return s
 
